@@ -16,6 +16,14 @@ use crate::implside::{self, CaseReq};
 use crate::known::Known;
 use crate::props::{budget, run_rule_case};
 
+fn mapn2(kvs: Vec<(&str, Yaml)>) -> Yaml {
+    let mut m = Mapping::new();
+    for (k, v) in kvs {
+        m.insert(ys(k), v);
+    }
+    Yaml::Mapping(m)
+}
+
 fn map1(k: &str, v: Yaml) -> Yaml {
     let mut m = Mapping::new();
     m.insert(ys(k), v);
@@ -657,6 +665,38 @@ pub fn run_c12(ctx: &mut Ctx, _known: &Known) {
             ctx.nontrivial.insert(hash_str(&ex.line));
         }
     }
+    // (0b) a rule text always loads to the same thing: repeated loads of one text (also a text the
+    //      loader rejects, e.g. one without a condition) give the same outcome every time
+    {
+        let texts: Vec<(String, CaseReq)> = (0..budget(ctx, 6, 40)).map(|k| {
+            let mut r = Rng::new(ctx.seed.wrapping_mul(1201).wrapping_add(k as u64));
+            let mut c = gen_case(&mut r, vec![0, 15], 2);
+            if k % 2 == 0 {
+                c.det.retain(|(n, _)| n != "condition");
+                c.det.push(("Zb".into(), map1("n", Yaml::Number(3u64.into()))));
+                c.det.push(("Za".into(), mapn2(vec![("s", ys("x")), ("n", Yaml::Number(1u64.into()))])));
+            }
+            (format!("repeat-load:{}", k), c)
+        }).collect();
+        for (name, c) in texts {
+            let text = serde_yaml::to_string(&implside::rule_value(&c)).unwrap_or_default();
+            let mut outcomes: Vec<String> = vec![];
+            for _ in 0..8 {
+                outcomes.push(match Rule::from_str(&text) {
+                    Ok(r) => format!("ok {} {}", r.detection.expression, implside::ids_sx(&r.detection.identifiers)),
+                    Err(e) => format!("err {}", implside::load_err_class(&e)),
+                });
+            }
+            let (ex, _) = run_rule_case(ctx, &c, false);
+            ctx.nontrivial.insert(hash_str(&text));
+            if outcomes.iter().any(|o| *o != outcomes[0]) {
+                let mut uniq = outcomes.clone();
+                uniq.sort();
+                uniq.dedup();
+                ctx.violation("oracle", &format!("{}: loading one rule text 8 times gives {} different outcomes: {}", name, uniq.len(), trunc(&uniq.join(" | "), 400)), &ex, &text, true);
+            }
+        }
+    }
     for i in 0..n {
         let mut r = Rng::new(ctx.seed.wrapping_mul(613).wrapping_add(i as u64));
         let mut c = gen_case(&mut r, vec![0, 15, 10, 7], 5);
@@ -854,7 +894,7 @@ fn c14_text_vs_value(ctx: &mut Ctx) {
 /// unoptimised tree, so the two differ exactly where optimisation changed a verdict (C01's recorded
 /// findings): counted under KF-C14-optimised-verdict when the copy agrees with the plain rule,
 /// a violation otherwise.
-fn c14_optimised_vs_reloaded(ctx: &mut Ctx, known: &Known, name: &str, c: &CaseReq, from_corpus: bool) {
+fn c14_optimised_vs_reloaded(ctx: &mut Ctx, known: &Known, name: &str, c: &CaseReq, from_corpus: bool, model_agrees: bool) {
     let rule = match Rule::from_value(implside::rule_value(c)) {
         Ok(r) => r,
         Err(_) => return,
@@ -868,7 +908,8 @@ fn c14_optimised_vs_reloaded(ctx: &mut Ctx, known: &Known, name: &str, c: &CaseR
         if let Some(m) = d.as_mapping() {
             let (o, b, p) = (opt.matches(m), back.matches(m), rule.matches(m));
             if o != b {
-                if b == p && known.has_family("C14", "C14-optimised-verdict") {
+                // only a difference the faithful model reproduces (a recorded C01 shape) is known
+                if b == p && model_agrees && known.has_family("C14", "C14-optimised-verdict") {
                     ctx.stat("known-optimised-verdict");
                     if from_corpus {
                         if let Some(f) = known.by_witness("C14", name) {
@@ -889,8 +930,10 @@ fn c14_optimised_vs_reloaded(ctx: &mut Ctx, known: &Known, name: &str, c: &CaseR
 
 pub fn run_c14(ctx: &mut Ctx, _known: &Known) {
     let known = _known;
-    for (name, c) in corpus_cases() {
-        c14_optimised_vs_reloaded(ctx, known, &name, &c, true);
+    for (name, mut c) in corpus_cases() {
+        c.masks = vec![0, 15];
+        let (ex, _) = run_rule_case(ctx, &c, false);
+        c14_optimised_vs_reloaded(ctx, known, &name, &c, true, ex.agree && ex.supported);
     }
     c14_text_vs_value(ctx);
     let n = budget(ctx, 1200, 30000);
@@ -909,7 +952,7 @@ pub fn run_c14(ctx: &mut Ctx, _known: &Known) {
             Some(p) if p.load == "ok" => p,
             _ => continue,
         };
-        c14_optimised_vs_reloaded(ctx, _known, &format!("random:{}", i), &c, false);
+        c14_optimised_vs_reloaded(ctx, _known, &format!("random:{}", i), &c, false, ex.agree && ex.supported);
         let ry = rule_yaml(&c);
         let value = implside::rule_value(&c);
         let rule = match Rule::from_value(value.clone()) {
